@@ -87,3 +87,38 @@ Lemma valid_name_nonul k : valid_name_b k = true -> nonul k = true.
 Proof. unfold valid_name_b. intros H. apply andb_true_iff in H as [H _]. apply andb_true_iff in H as [H _]. exact H. Qed.
 Lemma valid_id_nonul k : valid_id_b k = true -> nonul k = true.
 Proof. unfold valid_id_b. intros H. apply andb_true_iff in H as [_ H]. exact H. Qed.
+
+(* ---------- the key-set consistency check means what it says (C04) ---------- *)
+Lemma bcmp_eq' a : forall b, bcmp a b = Eq -> a = b.
+Proof. induction a as [|x a IH]; intros [|y b]; simpl; try discriminate; auto.
+  destruct (N.compare x y) eqn:E; try discriminate. intros H. apply N.compare_eq in E. subst. f_equal. auto. Qed.
+Lemma beqb_true a b : beqb a b = true -> a = b.
+Proof. unfold beqb. destruct (bcmp a b) eqn:E; try discriminate. intros _. now apply bcmp_eq'. Qed.
+Lemma has_key_In ks k : has_key ks k = true -> In k ks.
+Proof. unfold has_key. intros H. apply existsb_exists in H as [x [Hin Hx]]. apply beqb_true in Hx. now subst. Qed.
+
+Definition nonul5 (g a b c l : bytes) : bool := nonul g && nonul a && nonul b && nonul c && nonul l.
+Lemma split_key7 t g a b c l : nonul t = true -> nonul5 g a b c l = true ->
+  split0 (join [t; g; a; b; c; l; etype1]) = [t; g; a; b; c; l; etype1].
+Proof. intros Ht H. unfold nonul5 in H. repeat (apply andb_true_iff in H as [H ?]).
+  apply split_join; [discriminate|]. cbn [forallb]. rewrite Ht, H, H0, H1, H2, H3. reflexivity. Qed.
+
+(* an edge record in a consistent key set has its by-source and its by-destination entry ... *)
+Theorem key_check_edge ks g e s d l : nonul5 g e s d l = true -> keys_consistent ks = true ->
+  In (edge_key g e s d l) ks -> In (src_key g s d e l) ks /\ In (dst_key g s d e l) ks.
+Proof.
+  intros Hn Hc Hin. unfold keys_consistent in Hc. rewrite forallb_forall in Hc. specialize (Hc _ Hin).
+  unfold key_consistent, edge_key in Hc. rewrite (split_key7 tag_e g e s d l eq_refl Hn) in Hc. cbn in Hc.
+  apply andb_true_iff in Hc as [H1 H2]. split; now apply has_key_In.
+Qed.
+(* ... and an entry of either index names an edge record that is there *)
+Theorem key_check_entry ks g e s d l : nonul5 g s d e l = true -> keys_consistent ks = true ->
+  (In (src_key g s d e l) ks -> In (edge_key g e s d l) ks) /\ (In (dst_key g s d e l) ks -> In (edge_key g e s d l) ks).
+Proof.
+  intros Hn Hc. unfold keys_consistent in Hc. rewrite forallb_forall in Hc. split; intros Hin; specialize (Hc _ Hin).
+  - unfold key_consistent, src_key in Hc. rewrite (split_key7 tag_s g s d e l eq_refl Hn) in Hc. cbn in Hc. now apply has_key_In.
+  - unfold key_consistent, dst_key in Hc.
+    assert (nonul5 g d s e l = true) as Hn'.
+    { unfold nonul5 in *. repeat (apply andb_true_iff in Hn as [Hn ?]). rewrite Hn, H, H0, H1, H2. reflexivity. }
+    rewrite (split_key7 tag_d g d s e l eq_refl Hn') in Hc. cbn in Hc. now apply has_key_In.
+Qed.
